@@ -304,6 +304,9 @@ def c18(tier, seed):
         Ob('filter.alloc_file', F, 'h_filter_alloc', unwind=8, small_path=True, timeout=900, mem=6, cost=10, kind='bounded',
            bound='pattern strings of at most 5 bytes, every byte value', functions=ef('filter_alloc_file') + ['pathimport / pathcpy (cmdline/support.c) by inclusion of their callers only'],
            srcs=['cmdline/support.c']),
+        Ob('filter.state_filter', 'harness/h_statew.c', 'h_state_filter', route='dfcc', replace=['filter_path', 'filter_emptydir', 'filter_existence', 'filter_correctness'], unwind=6, small_path=True, object_bits=12,
+           timeout=900, mem=8, cost=8, replay=False, functions=['state_filter (cmdline/state.c)'], kind='bounded', bound='one disk holding one file, one link, one empty directory; 1..2 parity levels',
+           note='every combination of -f / -d / -m / -e and every verdict of the four filter functions (replaced by contracts, dfcc)'),
     ] + [
         Ob('filter.rule_list.%s.nf%d' % (('path', 'subdir', 'emptydir')[w], n), F, 'h_filter_list', ['cmdline/support.c'], defs={'NFX': n, 'WHICH': w}, unwind=9, small_path=True,
            timeout=1500, mem=8, cost=5 + 10 * n, kind='bounded', tier='quick' if n <= 2 else 'thorough',
@@ -336,7 +339,9 @@ STATE_Q_AUTOCONF = dict(region='state_q_autoconf', file='cmdline/state.c', scope
 
 
 def state_obs(tier):
-    return [Ob('state.write.order', 'harness/h_statew.c', 'h_state_write', route='dfcc', replace=['state_write_content', 'state_verify_content', 'state_rename_content'], unwind=4, small_path=True,
+    return [Ob('elem.fs_file2block_get.guard', 'harness/h_elem.c', 'h_file2block_guard', unwind=4, small_path=True, timeout=600, mem=6, cost=3,
+               functions=['fs_file2block_get (cmdline/elem.c)', 'file_block (cmdline/elem.h)'], note='every blockmax and position (32 bit)'),
+            Ob('state.write.order', 'harness/h_statew.c', 'h_state_write', route='dfcc', replace=['state_write_content', 'state_verify_content', 'state_rename_content'], unwind=4, small_path=True,
                timeout=900, mem=8, cost=5, replay=False, functions=['state_write (cmdline/state.c)'],
                note='typestate contracts on the three steps (dfcc replace): each requires the phase its predecessor ensures; the checksum handed to the verification is the one produced by the write'),
             Ob('state.record_Q.autoconf', 'harness/h_stateq.c', 'h_region_q_autoconf', ['cmdline/util.c'], inject=[STATE_Q_AUTOCONF], unwind=12, small_path=True, timeout=900, mem=8, cost=5,
@@ -417,7 +422,7 @@ def c19(tier, seed):
 
 
 def c09(tier, seed):
-    return stream_obs(['h_sgetb32', 'h_sgetb64', 'h_sgetble32', 'h_sgetbs']) + crc_obs(tier) + state_obs(tier)
+    return stream_obs(['h_sgetb32', 'h_sgetb64', 'h_sgetble32', 'h_sgetbs']) + crc_obs(tier) + state_obs(tier) + crc_record_obs()
 
 
 NSEC_ENC = dict(region='nsec_enc', file='cmdline/state.c', begin='/* encode STAT_NSEC_INVALID as 0 */', end='sputb64(inode, f);', end_first_after=True, max_lines=8, expect_loops=0,
@@ -431,6 +436,18 @@ INFO_ENC = dict(region='info_enc', file='cmdline/state.c', begin='/* if there is
 INFO_DEC = dict(region='info_dec', file='cmdline/state.c', begin='/* if there is an info */', end='while (v_count) {', end_first_after=True, max_lines=40, expect_loops=0,
                 proto='static snapraid_info region_info_dec(struct snapraid_state *state, uint32_t flag, uint32_t v_oldest, STREAM *f, const char *path)',
                 prologue='\tint ret, bad, rehash, justsynced;\n\tuint32_t t;\n\tsnapraid_info info;', epilogue='\t(void)ret;\n\treturn info;')
+
+
+CRC_CHECK = dict(region='crc_check', file='cmdline/state.c', scope="} else if (c == 'N') {", begin='/* get the crc before reading it from the file */', end='crc_checked = 1;', end_first_after=True,
+                 include_end=True, max_lines=30, expect_loops=0,
+                 proto='static void region_crc_check(STREAM *f, const char *path, int *crc_checked_p)',
+                 prologue='\tint ret, crc_checked = *crc_checked_p;\n\tuint32_t crc_stored, crc_computed;', epilogue='\t*crc_checked_p = crc_checked;\n\t(void)ret;')
+
+
+def crc_record_obs():
+    return [Ob('state.N_record.crc_check', 'harness/h_staterec.c', 'h_crc_record', inject=[NSEC_ENC, NSEC_DEC, CRC_CHECK], defs={'VERIF_CRC_REGION': None}, unwind=4, small_path=True, timeout=600, mem=6, cost=3,
+               functions=["state_read_content: region 'N' record (cmdline/state.c, extracted mechanically)"],
+               note='every computed / stored CRC value and a failing read; scrc and sgetble32 replaced by recording stubs')]
 
 
 def staterec_obs(tier):
